@@ -416,6 +416,61 @@ fn scripted(v: Variant) -> Vec<Hist> {
             });
         }
     }
+    // each variant's OWN migrate entry point (same code id, by the wasm admin): once, twice in
+    // a row, alternating with royalty updates, from the record as it is and from rewritten
+    // records around every version literal (what a migrate records afterwards matters:
+    // metadata-onchain records 3.0.0)
+    {
+        let mut cw2s: Vec<Option<(String, String)>> = vec![None];
+        if v != Variant::UpdatableMigrated {
+            for ver in version_grid_self() {
+                cw2s.push(Some((own_name(v).to_string(), ver)));
+            }
+            if v == Variant::Updatable {
+                cw2s.push(Some((NAME_UPD_LEGACY.to_string(), "3.0.9".into())));
+            }
+            if v == Variant::Onchain {
+                cw2s.push(Some(("crates.io:something-else".to_string(), "3.0.9".into())));
+            }
+        }
+        let hour = 3_600_000_000_000u64;
+        for (i, cw2) in cw2s.into_iter().enumerate() {
+            let a = t0 + DAY_NS;
+            out.push(Hist {
+                setup: Setup { cw2: cw2.clone(), ..setup_with(v, Some(5 * PCT)) },
+                steps: vec![
+                    st(a, "creator", upd_roy(7 * PCT)),
+                    st(a + 1, "alice", Op::MigrateSelf),
+                    st(a + 1, "creator", Op::MigrateSelf),
+                    st(a + hour, "creator", upd_roy(9 * PCT)),
+                    st(a + hour + 1, "creator", Op::MigrateSelf),
+                    st(a + hour + 1, "creator", Op::MigrateSelf),
+                    st(a + hour + 2, "creator", upd_roy(9 * PCT)),
+                    st(a + DAY_NS - 1, "creator", upd_roy(9 * PCT)),
+                    st(a + DAY_NS, "creator", upd_roy(9 * PCT)),
+                    st(a + DAY_NS + 1, "creator", Op::MigrateSelf),
+                    st(a + DAY_NS + 2, "creator", upd_roy(10 * PCT)),
+                    st(a + 2 * DAY_NS, "creator", upd_roy(10 * PCT)),
+                ],
+            });
+            if i % 2 == 0 {
+                out.push(Hist {
+                    setup: Setup { cw2, ..setup_with(v, Some(5 * PCT)) },
+                    steps: vec![
+                        st(t0 + 10, "creator", Op::MigrateSelf),
+                        st(t0 + 11, "creator", Op::MigrateSelf),
+                        st(t0 + 12, "creator", upd_roy(6 * PCT)),
+                        st(t0 + DAY_NS - 1, "creator", upd_roy(6 * PCT)),
+                        st(t0 + DAY_NS, "creator", upd_roy(6 * PCT)),
+                        st(t0 + DAY_NS + 1, "creator", Op::MigrateSelf),
+                        st(t0 + DAY_NS + 1, "creator", Op::Migrate),
+                        st(t0 + DAY_NS + 2, "creator", Op::MigrateSelf),
+                        st(t0 + DAY_NS + 3, "creator", upd_roy(8 * PCT)),
+                    ],
+                });
+            }
+        }
+    }
     // u64 clock overflow of anchor + 24 h
     out.push(Hist {
         setup: Setup { time0: u64::MAX - DAY_NS + 1, ..setup_with(v, Some(5 * PCT)) },
@@ -437,6 +492,8 @@ fn random_hist(v: Variant, rng: &mut Rng, len: usize) -> Runner {
     if rng.chance(1, 3) && matches!(v, Variant::Base | Variant::Updatable) {
         let n = if v == Variant::Base { *rng.pick(&[NAME_BASE, NAME_BASE_LEGACY]) } else { *rng.pick(&[NAME_UPD, NAME_UPD_LEGACY]) };
         setup.cw2 = Some((n.to_string(), rng.pick(&version_grid()).clone()));
+    } else if rng.chance(1, 3) && v != Variant::UpdatableMigrated {
+        setup.cw2 = Some((own_name(v).to_string(), rng.pick(&version_grid_self()).clone()));
     }
     let mut r = Runner::new(&setup);
     if !r.alive() {
@@ -469,6 +526,7 @@ fn random_hist(v: Variant, rng: &mut Rng, len: usize) -> Runner {
             2 => Op::UpdateInfo(UpdSpec { description: Some("other".into()), ..Default::default() }),
             3 => Op::Mint { id: rng.below(3), owner: "alice".into(), uri: None },
             4 => Op::Migrate,
+            5 | 6 => Op::MigrateSelf,
             _ => {
                 let c = cur.unwrap_or(0);
                 let share = match rng.below(14) {
@@ -527,6 +585,11 @@ pub fn history_monitor(r: &Runner) -> Option<(String, String)> {
     }
     let mut last_accept: Option<u64> = None;
     let mut anchor = r.setup.time0; // last accepted change, or creation
+    // the harness rewrote the cw2 record to a version below 3.1.0: the collection stands for
+    // a deployment that predates the cadence anchor.  Its FIRST successful migration may
+    // create the anchor (now - 24 h); this excuse is used up by that migration - a record
+    // below 3.1.0 that a migrate itself wrote (metadata-onchain records 3.0.0) earns none.
+    let mut predates_anchor = matches!(&r.setup.cw2, Some((_, ver)) if parse_triple(ver) < (3, 1, 0));
     let mut frozen = false;
     for (i, rec) in r.recs.iter().enumerate() {
         let since = anchor; // last accepted change before this step (or creation)
@@ -594,9 +657,14 @@ pub fn history_monitor(r: &Runner) -> Option<(String, String)> {
         // a deployment older than 3.1.0 has no cadence anchor at all (the field was added
         // in 3.1.0); its migration creates one at now - 24 h, so the cadence starts there.
         // Any other migration must leave the cadence alone.
-        if rec.ok && matches!(rec.step.op, Op::Migrate) && parse_triple(&rec.before.cw2.1) < (3, 1, 0) {
-            last_accept = None;
-            anchor = rec.step.at.saturating_sub(DAY_NS);
+        if rec.ok && matches!(rec.step.op, Op::Migrate | Op::MigrateSelf) {
+            if predates_anchor && parse_triple(&rec.before.cw2.1) < (3, 1, 0) && rec.before.cw2 != rec.after.cw2 {
+                last_accept = None;
+                anchor = rec.step.at.saturating_sub(DAY_NS);
+            }
+            if rec.before.cw2 != rec.after.cw2 {
+                predates_anchor = false;
+            }
         }
     }
     None
@@ -710,7 +778,7 @@ pub fn run(a: &Args) {
         }
     }
     rep.distinct_nontrivial = distinct.len() as u64;
-    rep.rule = "evaluations = royalty_payout calls + instantiations + executed history steps. Payout: shares {none, 0, 1, 1%, 2%, 5%, 10%, 50%, 99%, 100%, 200%, u128::MAX} +-1 atomic x payments (small, 10^k, 10^18, u128::MAX, +-1) x fees on the `fees + royalty = payment` boundary +-1, with/without finder's fee, plus random u128. Histories: per variant (base, updatable, updatable-migrated, metadata-onchain, nt) initial entry {none, 0%, 1 unit, 2%, 10%, 100%} x first update at 24h-1ns/24h/24h+1ns x {+1 unit, +2pts, +2pts+1 unit, 5%, 100%} (monitors judge raises against the harness's ledger of the entry as the creator set it, never a read-back value), 0%/1-unit entries across a migration, lowering to 0% and back, instantiate shares around 100%, clocks at 24h-1ns/24h/24h+1ns from creation and from the previous accepted change, raises of 2% +-1 atomic from 12 bases, cap 10% +-1 atomic, first royalty on a royalty-less collection, climbs, non-creator senders, frozen collection, u64 clock overflow, admin migrations to the sg721-updatable code between royalty updates at 1 ns / 1 h / 24 h -1 / +0 / +1 over the same cw2 name x version grid as C09, then random royalty histories (with migrations). Non-trivial = payout that pays or refuses; history step (distinct by variant, call, sender, outcome and prior observation) that is not a message-does-not-exist rejection.".into();
+    rep.rule = "evaluations = royalty_payout calls + instantiations + executed history steps. Payout: shares {none, 0, 1, 1%, 2%, 5%, 10%, 50%, 99%, 100%, 200%, u128::MAX} +-1 atomic x payments (small, 10^k, 10^18, u128::MAX, +-1) x fees on the `fees + royalty = payment` boundary +-1, with/without finder's fee, plus random u128. Histories: per variant (base, updatable, updatable-migrated, metadata-onchain, nt) initial entry {none, 0%, 1 unit, 2%, 10%, 100%} x first update at 24h-1ns/24h/24h+1ns x {+1 unit, +2pts, +2pts+1 unit, 5%, 100%} (monitors judge raises against the harness's ledger of the entry as the creator set it, never a read-back value), 0%/1-unit entries across a migration, lowering to 0% and back, instantiate shares around 100%, clocks at 24h-1ns/24h/24h+1ns from creation and from the previous accepted change, raises of 2% +-1 atomic from 12 bases, cap 10% +-1 atomic, first royalty on a royalty-less collection, climbs, non-creator senders, frozen collection, u64 clock overflow, admin migrations to the sg721-updatable code between royalty updates at 1 ns / 1 h / 24 h -1 / +0 / +1 over the same cw2 name x version grid as C09, each variant's OWN migrate entry point with the same code id (Sg721Contract::migrate wired for sg721-base, sg721-updatable, metadata-onchain, nt) once / twice in a row / alternating with royalty updates, from the record as it is and from rewritten records (own name x version grid + 3.9.9, 3.10.0, 10.0.0 for the string comparisons), then random royalty histories (with both kinds of migration). Non-trivial = payout that pays or refuses; history step (distinct by variant, call, sender, outcome and prior observation) that is not a message-does-not-exist rejection.".into();
     out.write_cases("C10", "From LP Require Import Collection C10Corr.", "c10_case", "c10_check", &coq_cases, 6, &mut rep);
     out.finish(&rep);
     println!("C10 harness: {} evaluations in {} cases, {} monitor violations", rep.evaluations, coq_cases.len(), nviol);
